@@ -740,7 +740,8 @@ impl LZDiff {
 
     /// Check if byte is a literal
     fn is_literal(&self, c: u8) -> bool {
-        (b'A'..=b'A' + 20).contains(&c) || c == b'!'
+        // 'A' + 30 is the literal the encoder emits for the unknown-letter code (30)
+        (b'A'..=b'A' + 20).contains(&c) || c == b'A' + 30 || c == b'!'
     }
 
     /// Decode a literal
